@@ -34,6 +34,8 @@ var h14FlagSets = []h14Flags{
 	{[]string{"-ignore", ".fullname,b", "-row", ".name", "-table", "a"}, "a", ".name", ".file", ".fullname,b", "*"},
 	{[]string{"-col", "b,.file", "-table", "a"}, "a", ".fullname", "b,.file", "", "*"},
 	{[]string{"-col", "b,a,.file", "-table", ".name"}, ".name", ".fullname", "b,a,.file", "", "*"},
+	{[]string{"-filter", "a:x", "-row", "/s@(2 1)"}, ".config", "/s@(2 1)", ".file", "", "a:x"},
+	{[]string{"-filter", ".unit:B/op", "-row", ".name@(P Q)", "-col", ".file@(f2.txt f1.txt)"}, ".config", ".name@(P Q)", ".file@(f2.txt f1.txt)", "", ".unit:B/op"},
 }
 
 func h14Pick(name string, opts string) byte {
@@ -144,6 +146,21 @@ func H14Main() {
 	}
 	if vndParam("flags") == 1 || vndParam("flags") == 6 {
 		vndAssert(!strings.Contains(w, "vary in"), "no-warning-about-an-ignored-key")
+	}
+	// the filter given on the command line holds for everything shown, also when a projection
+	// carries a fixed value list of its own
+	if fs.filter == "a:x" {
+		if a1 != 'x' {
+			vndAssert(!strings.Contains(out.String(), "f1.txt"), "results-rejected-by-the-filter-appear-nowhere")
+		}
+		if a2 != 'x' {
+			vndAssert(!strings.Contains(out.String(), "f2.txt"), "results-rejected-by-the-filter-appear-nowhere")
+		}
+		vndAssert(!strings.Contains(out.String(), "a: y"), "results-rejected-by-the-filter-appear-nowhere")
+	}
+	if fs.filter == ".unit:B/op" {
+		vndAssert(!strings.Contains(out.String(), "sec/op"), "results-rejected-by-the-filter-appear-nowhere")
+		vndAssert(strings.Contains(out.String(), "B/op"), "filtered-measurements-are-shown")
 	}
 	_, _, _, _, _, _, _, _ = a1, a2, b1, b2, s11, s12, s21, s22
 	vndObserveStr("out", out.String())
